@@ -111,6 +111,34 @@ RECURSIVE Run(_, _)
 Run(m, evs) == IF evs = <<>> THEN m ELSE Run(Do(m, Head(evs)), Tail(evs))
 
 -----------------------------------------------------------------------------
+(* Beyond C13: the Mermaid sequence generator (pkg/mermaid/sequencediagram) *)
+(* read against the same reference walk.  It draws every call once (it does *)
+(* not repeat a call it has drawn before), so it is judged on sets and on   *)
+(* order: every arrow between two applications is an arrow of the walk,     *)
+(* every distinct arrow of the walk is drawn, the drawn calls come in the   *)
+(* order of the walk, every block it opens is closed, and every line is a   *)
+(* Mermaid sequence-diagram statement.  An arrow from an application to     *)
+(* itself that the walk does not have is an action, not a call.             *)
+RECURSIVE IsSubseq(_, _)
+IsSubseq(a, b) == IF a = <<>> THEN TRUE
+                  ELSE IF b = <<>> THEN FALSE
+                  ELSE IF Head(a) = Head(b) THEN IsSubseq(Tail(a), Tail(b)) ELSE IsSubseq(a, Tail(b))
+RECURSIVE FirstsOf(_, _)
+FirstsOf(s, seen) == IF s = <<>> THEN <<>>
+                     ELSE IF Head(s) \in seen THEN FirstsOf(Tail(s), seen)
+                     ELSE <<Head(s)>> \o FirstsOf(Tail(s), seen \cup {Head(s)})
+MermaidJudge(want, got, opens, ends, unknown) ==
+  LET ws == {want[i] : i \in DOMAIN want}
+      calls == SelectSeq(got, LAMBDA a : a[1] # a[2] \/ a \in ws)
+      cs == {calls[i] : i \in DOMAIN calls}
+      drawn == SelectSeq(calls, LAMBDA a : a \in ws)
+  IN (IF cs \subseteq ws THEN {} ELSE {"MermaidArrowNotOfWalk"})
+     \cup (IF ws \subseteq cs THEN {} ELSE {"MermaidCallNotDrawn"})
+     \cup (IF IsSubseq(FirstsOf(drawn, {}), want) THEN {} ELSE {"MermaidCallsOutOfWalkOrder"})
+     \cup (IF opens = ends THEN {} ELSE {"MermaidBlockNotClosed"})
+     \cup (IF unknown = 0 THEN {} ELSE {"MermaidLineIsNoStatement"})
+
+-----------------------------------------------------------------------------
 (* The intended generator (a transcription of the visitor's rules): used to *)
 (* show that the clauses are satisfiable by the design on every small call   *)
 (* graph, including recursive ones, before any implementation is blamed.     *)
